@@ -806,7 +806,7 @@ def run(ctx):
     quick = ctx.quick()
     try:
         fixed_cases(ctx)
-        n_tab = 1300 if quick else 2500
+        n_tab = 1300 if quick else 1800
         for i in range(n_tab):
             t, route, hist = gen_table(rng, quick)
             ctx.count("history=" + hist)
